@@ -6,6 +6,7 @@ CONSTANTS
   MethodNames = {"f"}
   SelfKinds = {"pk", "po", "none"}
   BaseNaming = "pos"
+  FixedMemberWithoutSelf = TRUE
   RMutant = "none"
   MaxExpected = 2
   MaxActual = 2
